@@ -25,7 +25,7 @@ CHECK_RE = re.compile(
 def parse_log(text):
     r = {"checks": 0, "failed": [], "undetermined": [], "covers": [], "verdict": None,
          "cbmc_time_s": None, "unwind_fail": False, "stubs": []}
-    for m in re.finditer(r"^Check (\d+): (\S+)\n\s+- Status: (\w+)\n\s+- Description: \"(.*?)\"\n(?:\s+- Location: (.*?)\n)?", text, re.M | re.S):
+    for m in re.finditer(r"^Check (\d+): ([^\n]+)\n\s+- Status: (\w+)\n\s+- Description: \"(.*?)\"\n(?:\s+- Location: (.*?)\n)?", text, re.M | re.S):
         num, name, status, desc, loc = m.groups()
         loc = (loc or "").strip()
         if ".cover." in name or status in ("SATISFIED", "UNSATISFIABLE"):
@@ -91,6 +91,11 @@ def run_harness(repo_dir, target_dir, h, logdir, extra_args=(), timeout=None, ta
     r["cmd"] = " ".join(cmd[3:])
     m = re.search(r"MAXRSS_KB=(\d+)", text)
     r["max_rss_mb"] = int(m.group(1)) // 1024 if m else None
+    # cross-check the per-check parse against Kani's own summary
+    if r.get("summary_failed") is not None and r["summary_failed"] != len(r["failed"]) and status is None and r["verdict"] == "FAILED":
+        fc = re.findall(r"^Failed Checks: (.*)$", text, re.M)
+        for d in fc[len(r["failed"]):]:
+            r["failed"].append({"name": "?", "desc": d, "loc": "(see log)"})
     if status is None:
         if r["verdict"] == "SUCCESSFUL" and rc == 0 and not r["failed"] and not r["undetermined"]:
             status = "PASS"
